@@ -18,11 +18,12 @@ import (
 func init() {
 	register(&Prop{
 		ID: "C06", Level: "exploration",
-		Rule:        "recorded-history checking: seeded concurrent programs (3-4 clients x 8-15 operations on 1-3 keys; Set/Create/Delete/Get/GetKeys, RU/RC transactions, a collector actor, scheduled collector every few ms, deferred worker-pool path) run on the real inline database with seeded perturbation at the hook points; every call is recorded at the client boundary (call/return stamps from one monotonic clock) and the history is checked with porcupine v1.3.0 against (i) a per-key register model (autocommit programs; GetKeys projected per key) or (ii) the whole-store reference model with GetKeys as an atomic multi-key read (RU/RC programs); plus sound cheap monitors on every history (only nil/ErrNotFound result classes, no foreign/partial/mixed content, final sequential reads after collection, no panic, watchdog + goroutine-dump classification for dead-locks); plus the named windows steered through hook gates. evaluations = operations recorded; distinct_nontrivial = distinct overlapping operation-kind pairs observed + distinct (window, outcome) pairs",
+		Rule:        "recorded-history checking: seeded concurrent programs (3-4 clients x 8-15 operations on 1-3 keys; Set/Create/Delete/Get/GetKeys, RU/RC transactions, a collector actor, scheduled collector every few ms, deferred worker-pool path) run on the real inline database with seeded perturbation at the hook points; every call is recorded at the client boundary (call/return stamps from one monotonic clock) and the history is checked with porcupine v1.3.0 against (i) a per-key register model (autocommit programs; GetKeys projected per key) or (ii) the whole-store reference model with GetKeys as an atomic multi-key read (RU/RC programs); plus sound cheap monitors on every history (only nil/ErrNotFound result classes, no foreign/partial/mixed content, final sequential reads after collection, no panic, watchdog + goroutine-dump classification for dead-locks); plus the named windows steered through hook gates; plus the group role: one writer flips two key groups with multi-key commits (all four levels) while autocommit/ReadCommitted GetKeys readers run; every result must show exactly one complete group and all padding keys (padding written concurrently into directories limited to 100 entries, so directory rotation happens under concurrency). evaluations = operations recorded; distinct_nontrivial = distinct overlapping operation-kind pairs observed + distinct (window, outcome) pairs",
 		Assumptions: []string{"porcupine v1.3.0", "reference model / register model", "goroutine-dump classification of dead-locks (DESIGN 2.6)"},
 		Roles: map[string]Role{
 			"hist":   {N: func(t string) int { return tierN(t, 480, 30000) }, Case: c06Hist},
 			"window": {N: func(t string) int { return tierN(t, 36, 1200) }, Case: c06Window},
+			"groups": {N: func(t string) int { return tierN(t, 16, 320) }, Case: c06Groups},
 		},
 	})
 }
